@@ -96,6 +96,7 @@ func New[T any](
 	if lock {
 		tree.locker = &sync.RWMutex{}
 	}
+	tree.buildMethods(0) // 生成 OPTIONS * 的初始报头内容
 
 	return tree
 }
@@ -156,6 +157,7 @@ func (tree *Tree[T]) Clean(prefix string) {
 	}
 
 	tree.node.clean(prefix)
+	tree.recountMethods()
 }
 
 // Remove 移除路由项
@@ -204,7 +206,7 @@ func (tree *Tree[T]) Remove(pattern string, methods ...string) {
 		child = child.parent
 	}
 
-	tree.buildMethods(-1, methods...)
+	tree.recountMethods()
 }
 
 // 获取指定的节点，若节点不存在，则在该位置生成一个新节点。
